@@ -74,7 +74,7 @@ Definition md_body_ok (pe_ok : text -> bool) (n : nat) (body : list bline) : boo
   forallb (fun b => match b with BExp l => md_exp_ok pe_ok n l | BCode ds => code_ok ds end) body
   && Nat.leb (count_codes body) 1
   && match body with BExp l :: _ => negb (starts_with P_GT l) | _ => true end.
-Definition lang_of (lang : text) : text := match split_at_brace lang with (a, Some _) => trim_end a | (a, None) => a end.
+Definition lang_of (lang : text) : text := match split_at_brace lang with (a, _) => trim_end a end.
 Definition lang_ok (lang : text) : bool :=
   match lang with [] => false | c :: _ => negb (c =? BT) end
   && negb (list_eqb (lang_of lang) SCRUT) && no_nl lang
